@@ -83,7 +83,7 @@ def prologue_types(ctx: Ctx) -> Dict[str, Tuple[str, int]]:
     return out
 
 
-@rule("L3", "RECORD-TYPES: record declarations of the prologue and of every library procedure are identical", ["C14"], floor=20)
+@rule("L3", "RECORD-TYPES: record declarations of the prologue and of every library procedure are identical", ["C14", "C04"], floor=20)
 def l3(ctx: Ctx):
     L = b09lib(ctx)
     pro = prologue_types(ctx)
@@ -539,3 +539,19 @@ def l10(ctx: Ctx):
             props=props_,
             signature="" if ok else "reads " + ", ".join(sorted({h[1] for h in hits})) + " after writing the result",
         )
+
+
+# ---------------------------------------------------------------------------
+# L11 LIB-BLOCKS
+
+
+@rule("L11", "LIB-BLOCKS: every procedure of the bundled library closes the blocks it opens (IF/ELSE/ENDIF, FOR/NEXT, WHILE/ENDWHILE, LOOP/ENDLOOP, EXITIF/ENDEXIT, REPEAT/UNTIL): the library is emitted verbatim into the user's bundle", ["C07"], floor=50)
+def l11(ctx: Ctx):
+    L = b09lib(ctx)
+    for name, p in sorted(L.procs.items()):
+        try:
+            build_blocks(L, p)
+            ok, why = True, ""
+        except AnalysisError as e:
+            ok, why = False, str(e.reason if hasattr(e, "reason") else e)
+        ctx.ob(name, ok, "" if ok else f"procedure {name}: {why} - the emitted bundle contains a procedure BASIC09 cannot pack", file=LIB_REL, line=p.line)
